@@ -285,6 +285,17 @@ func (fc *fnCtx) asAddr(v ssa.Value) *Addr {
 			fc.declOnce(ref, "V")
 			fc.assumes = append(fc.assumes, fmt.Sprintf("(and (not (= %s vnil)) (select alloc %s))", ref, ref))
 		}
+		gname := trimPath(g.Pkg.Pkg.Path()) + "." + g.Name()
+		if fc.e.db.nonnilGlobal[gname] && s == "V" {
+			// initialised once by the package initialiser with a non-nil value, never reassigned
+			// (structural obligation nonnil-global.*): reads see that value
+			fn := "|G!" + gname + "|"
+			if _, seen := fc.heapSort[fn]; !seen {
+				fc.declOnce(fn, "V")
+				fc.assumes = append(fc.assumes, fmt.Sprintf("(and (not (= %s vnil)) (select alloc %s))", fn, fn))
+			}
+			return &Addr{kind: aImm, ref: ref, hv: "|Gval!" + gname + "|", hsort: "V", typ: g.Type().(*types.Pointer).Elem(), prefix: "global." + gname}
+		}
 		return &Addr{kind: aHeap, ref: ref, hv: "|Hcell!" + sortKey(s) + "|", hsort: s, typ: g.Type().(*types.Pointer).Elem()}
 	}
 	if fv, ok := v.(*ssa.FreeVar); ok {
@@ -417,10 +428,23 @@ func (fc *fnCtx) load0(st *state, a *Addr) Val {
 		t := fc.applySel(fmt.Sprintf("(select (sarr %s) %s)", a.slice.T, a.idx), a.sel)
 		return Val{T: t, S: s, Ty: a.typ}
 	case aImm:
+		if strings.HasPrefix(a.prefix, "global.") {
+			g := "|G!" + strings.TrimPrefix(a.prefix, "global.") + "|"
+			return Val{T: g, S: "V", Ty: a.typ}
+		}
 		t := fc.applySel(fmt.Sprintf("(%s %s)", a.hv, a.ref), a.sel)
 		v := Val{T: t, S: s, Ty: a.typ}
 		if len(a.sel) == 0 {
 			fc.tagFrozenField(st, v, a.prefix)
+			if s == "V" {
+				fc.prov[t] = "H!" + strings.TrimPrefix(strings.Trim(a.hv, "|"), "F!")
+				al := fc.heapVar(st, "alloc", "(Array V Bool)")
+				key := t + "@" + al
+				if !fc.allocFacts[key] {
+					fc.allocFacts[key] = true
+					fc.assumes = append(fc.assumes, fmt.Sprintf("(or (= %s vnil) (select %s %s))", t, al, t))
+				}
+			}
 		}
 		return v
 	case aStruct:
@@ -476,10 +500,10 @@ func (fc *fnCtx) store(st *state, a *Addr, v Val) {
 			fc.store(st, fc.fieldAddr(a, i), Val{T: fmt.Sprintf("(%s %s)", f.name, v.T), S: f.sort, Ty: f.typ})
 		}
 	case aImm:
-		if !fc.freshRefs[a.ref] || len(a.sel) > 0 {
+		if !fc.freshRefs[a.ref] {
 			unsup("store to immutable field %s of an object not allocated in this function", a.prefix)
 		}
-		fc.assume(st, fmt.Sprintf("(= (%s %s) %s)", a.hv, a.ref, v.T))
+		fc.assume(st, fmt.Sprintf("(= %s %s)", fc.applySel(fmt.Sprintf("(%s %s)", a.hv, a.ref), a.sel), v.T))
 		fc.freezeField(st, v, a.prefix)
 	case aElem:
 		unsup("store through slice element (slice aliasing is not modelled)")
@@ -530,7 +554,10 @@ func (fc *fnCtx) val(v ssa.Value) Val {
 		return fc.constVal(c)
 	case *ssa.Function:
 		name := "|fn!" + canonName(c) + "|"
-		fc.declOnce(name, "V")
+		if _, seen := fc.heapSort[name]; !seen {
+			fc.declOnce(name, "V")
+			fc.assumes = append(fc.assumes, fmt.Sprintf("(not (= %s vnil))", name))
+		}
 		return Val{T: name, S: "V", Ty: c.Type()}
 	case *ssa.Global:
 		unsup("global %s used as value", c.Name())
